@@ -16,7 +16,7 @@ class C05(PureCheck):
     rule = ("round trip: the attribute records of C01 (quick: all 5,184 without explicit False + sampled False variants; "
             "thorough: all 59,049) with texts containing newline/tab/CR/wide/combining characters, plus multi-run values; "
             "grammar: every string of <=3 (quick) / <=4 (thorough) items over {a, b, newline} u {ESC[p m : p in the 23 "
-            "supported codes} u {ESC[m}, plus sampled combined-parameter sequences (1..3 parameters); parsed with "
+            "supported codes} u {ESC[m}, plus sampled combined-parameter sequences (1..3 parameters, and long ones of 8..200 parameters); parsed with "
             "FmtStr.from_str and fmtstr alternately; result run lists validated by TLC against the stream terminal run over "
             "the *input* tokens. distinct_nontrivial = distinct inputs with >=1 SGR token and >=1 character")
     exhaustive = {"quick": False, "thorough": True}
@@ -52,13 +52,18 @@ class C05(PureCheck):
             for combo in itertools.product(ITEMS, repeat=n):
                 k += 1
                 yield {"op": "parse", "s": enc.enc_text("".join(combo)), "via": k % 2}
+        for n in (15, 16, 17, 18, 31, 32, 33, 64, 65, 200):       # every length around the usual parameter-count limits
+            for tail in ([31], [1, 44], [0, 4]):
+                ps = [CODES[(j * 7 + n) % len(CODES)] for j in range(n - len(tail))] + tail
+                yield {"op": "parse", "s": enc.enc_text("a\x1b[" + ";".join(map(str, ps)) + "mxy\x1b[0mz"), "via": n % 2}
         for k in range(4000 if tier == "quick" else 60000):
             parts = []
             for _ in range(rng.randrange(1, 6)):
                 if rng.random() < 0.45:
                     parts.append(rng.choice(["a", "b", "\n", "xy", "\t"]))
                 else:
-                    ps = [rng.choice(CODES) for _ in range(rng.randrange(1, 4))]
+                    # mostly 1..3 parameters; now and then a long combined sequence (up to 40 parameters)
+                    ps = [rng.choice(CODES) for _ in range(rng.randrange(1, 4) if rng.random() < 0.9 else rng.choice([8, 15, 16, 17, 18, 24, 33, 40]))]
                     parts.append("\x1b[" + ";".join(map(str, ps)) + "m")
             yield {"op": "parse", "s": enc.enc_text("".join(parts)), "via": k % 2}
 
